@@ -2,9 +2,9 @@ import TJ.Proofs.AeadCommon
 namespace TJ.MiniC.Hoare
 open TJ TJ.MiniC TJ.MiniC.PermC TJ.Gen.MiniC
 
-def xorPub (i t x : Nat) (E : Expr) : Stmt := seqs [.assign t (addrS i), .load x .u32 (.var t), .store .u32 (.var t) (.bin .bxor .u32 (.var x) E)]
-def xorData (i t x : Nat) (loads : List (Nat × Nat)) (E : Expr) : Stmt :=
-  seqs (.assign t (addrS i) :: (loadsOf loads ++ [.load x .u32 (.var t), .store .u32 (.var t) (.bin .bxor .u32 (.var x) E)]))
+def xorPub (i t x : Nat) (E : Expr) (sv : Nat := 0) : Stmt := seqs [.assign t (addrS i sv), .load x .u32 (.var t), .store .u32 (.var t) (.bin .bxor .u32 (.var x) E)]
+def xorData (i t x : Nat) (loads : List (Nat × Nat)) (E : Expr) (sv : Nat := 0) (dv : Nat := 1) : Stmt :=
+  seqs (.assign t (addrS i sv) :: (loadsOf loads dv ++ [.load x .u32 (.var t), .store .u32 (.var t) (.bin .bxor .u32 (.var x) E)]))
 
 def absorbLoopBody (pidx : Nat) : Stmt :=
   .ite (.bin .ge .u64 (.var 2) (.cast .u64 .i32 (.lit 4)))
